@@ -356,7 +356,7 @@ def compare(ctx, batch):
 
 def run(ctx):
     ctx.rule = ('random orientations/positions/areas/transforms (|coord| up to 2^60), every grid shape up to the tier bound on tagged grids, '
-                'python-indexing probes; non-trivial = involves a non-identity orientation / a wrapped or out-of-range index / a non-empty set')
+                'python-indexing probes; reflected operand forms and augmented assignment; histories on one Grid (rotate / swap / assign; the receiver of a rotation edits it); non-trivial = involves a non-identity orientation / a wrapped or out-of-range index / a non-empty set')
     oracles(ctx)
     compare(ctx, list(cases(ctx)) + grid_histories(ctx))
     ctx.notes['exhaustive_part'] = 'all orientation triples; all grid shapes up to 6x6 (quick) / 9x9 (thorough) x 4 orientations'
